@@ -333,7 +333,7 @@ structure DateIn where
   t0 : TimeF
   /-- `t0.Add(time.Second)` -/
   t1 : TimeF
-  /-- `timeFromExcelTime(number, false).Hour()` (hoursNext ignores the date system) -/
+  /-- `timeFromExcelTime(number, false).Hour()` (no longer read: hoursNext uses `nf.t` since the fix) -/
   hour1900 : Nat
   /-- locale lookups by upper-cased code, for t0 and for t1 -/
   loc0 : Str → Locale
@@ -352,9 +352,9 @@ structure DtSt where
 
 def tokHas (t : Tok) (c : Char) : Bool := hasC (upper t.val) c
 
-/-- hoursNext: hour (1900 system) if an hours token follows position i, else -1 -/
-def hoursNext (items : List Tok) (i : Nat) (d : DateIn) : Int :=
-  if (items.drop (i + 1)).any (fun t => t.ty = "DateTimes" && tokHas t 'H') then (d.hour1900 : Int) else -1
+/-- hoursNext: the hour of `nf.t` if an hours token follows position i, else -1 -/
+def hoursNext (items : List Tok) (i : Nat) (tm : TimeF) : Int :=
+  if (items.drop (i + 1)).any (fun t => t.ty = "DateTimes" && tokHas t 'H') then (tm.hour : Int) else -1
 
 /-- apNext: the AM/PM token (if any) found after position i before the next hours token -/
 def apNextAux : List Tok → Option Str
@@ -396,7 +396,7 @@ inductive Step (α : Type) where
 def dateTimesHandler (items : List Tok) (i : Nat) (t : Tok) (tm : TimeF) (loc : Locale) (d : DateIn) (st : DtSt) : Step DtSt :=
   if inFold amPm (upper t.val) then
     if st.ap = [] then
-      let nextHours := hoursNext items i d
+      let nextHours := hoursNext items i tm
       let aps := apParts loc t.val
       match aps with
       | [] => .panic
@@ -469,7 +469,7 @@ def dateTimesHandler (items : List Tok) (i : Nat) (t : Tok) (tm : TimeF) (loc : 
             | .unmodelled => .unmodelled
             | .go (ap, h) =>
               let h := if ap ≠ [] then
-                  let h := if hoursNext items i d = -1 ∧ h > 12 then h - 12 else h
+                  let h := if hoursNext items i tm = -1 ∧ h > 12 then h - 12 else h
                   if h = 0 then 12 else h
                 else h
               let s := if l = 1 then itoa h else pad2 h
